@@ -551,6 +551,184 @@ Example admissible_example : admissible 5 5 1 (1/2) (1/10) /\ (1/10 <= 1).
 Proof. unfold admissible. lra. Qed.
 
 (* ------------------------------------------------------------------------------------- *)
+(** * Error exits: _updateParameters and its callers translated WITH their assertions, in
+    program order ([*_x] : state at return or at the raise, completed?) *)
+Section ErrorExits.
+Variable e : g3_env.
+Notation pre := g3__updateParameters_pre.
+
+Lemma upd_x_spec s tIn tOut L r sm c :
+  (pre tIn tOut L r sm c ->
+     g3__updateParameters_x e s tIn tOut L r sm c =
+     (g3__updateParameters e s tIn tOut L r sm c, true)) /\
+  (~ pre tIn tOut L r sm c -> g3__updateParameters_x e s tIn tOut L r sm c = (s, false)).
+Proof.
+  unfold g3__updateParameters_x, g3__updateParameters_pre, g3__updateParameters.
+  split; intro H;
+  repeat match goal with |- context [Rlt_dec ?a ?b] => destruct (Rlt_dec a b) end;
+  cbv beta iota zeta; try reflexivity; exfalso; unfold Rgt in *; tauto.
+Qed.
+
+Lemma upd_params_id (c : cache g3_st) : upd_params (fun _ => params c) c = c.
+Proof. destruct c; reflexivity. Qed.
+
+Lemma changePos_x_spec c tIn tOut L w :
+  (pre tIn tOut L (g3_ratioPointsWall (params c)) (g3_smoothing (params c)) w ->
+     g3_changePositionFalloffScale_x e c tIn tOut L w =
+     (g3_changePositionFalloffScale e c tIn tOut L w, true)) /\
+  (~ pre tIn tOut L (g3_ratioPointsWall (params c)) (g3_smoothing (params c)) w ->
+     g3_changePositionFalloffScale_x e c tIn tOut L w = (c, false)).
+Proof.
+  destruct (upd_x_spec (params c) tIn tOut L (g3_ratioPointsWall (params c))
+              (g3_smoothing (params c)) w) as [A B].
+  unfold g3_changePositionFalloffScale_x, g3_changePositionFalloffScale.
+  split; intro H.
+  - rewrite (A H). cbv beta iota zeta. cbn [fst snd]. reflexivity.
+  - rewrite (B H). cbv beta iota zeta. cbn [fst snd]. rewrite upd_params_id. reflexivity.
+Qed.
+
+Lemma init_x_spec c0 tIn tOut L T r sm w :
+  (pre tIn tOut L r sm w ->
+     g3_init_x e c0 tIn tOut L T r sm w = (g3_init e c0 tIn tOut L T r sm w, true)) /\
+  (~ pre tIn tOut L r sm w -> g3_init_x e c0 tIn tOut L T r sm w = (c0, false)).
+Proof.
+  destruct (upd_x_spec (params c0) tIn tOut L r sm w) as [A B].
+  unfold g3_init_x, g3_init. split; intro H.
+  - rewrite (A H). cbv beta iota zeta. cbn [fst snd]. reflexivity.
+  - rewrite (B H). cbv beta iota zeta. cbn [fst snd]. rewrite upd_params_id. reflexivity.
+Qed.
+
+(** histories in which some calls are rejected (the caller catches the error) *)
+Definition s00 := mk_g3_st 0 0 0 0 0 0 0 0 0 0.
+Definition accepted (a : args) (o : op) : bool :=
+  match o with
+  | ChangePos ti to l w => snd (g3__updateParameters_x e s00 ti to l (a_r a) (a_sm a) w)
+  | ChangeMom _ => true
+  end.
+Definition step_x (c : cache g3_st) (o : op) : cache g3_st :=
+  match o with
+  | ChangePos ti to l w => fst (g3_changePositionFalloffScale_x e c ti to l w)
+  | ChangeMom x => g3_changeMomentumFalloffScale e c x
+  end.
+Definition next_x (a : args) (o : op) : args := if accepted a o then next a o else a.
+Definition run_x (c : cache g3_st) (ops : list op) := fold_left step_x ops c.
+
+Lemma inv_r_sm c a : inv e c a ->
+  g3_ratioPointsWall (params c) = a_r a /\ g3_smoothing (params c) = a_sm a.
+Proof.
+  intros [_ Hp]. specialize (Hp c). revert Hp.
+  destruct c as [p ? ? ? ? ? ? ? ? ?], p, a. unfold core. cbn.
+  intros [= -> -> -> -> -> -> -> -> ->]. split; reflexivity.
+Qed.
+
+Lemma step_x_inv c a o : inv e c a -> inv e (step_x c o) (next_x a o).
+Proof.
+  intro H. destruct o as [ti to l w | x].
+  - destruct (inv_r_sm c a H) as [Er Es].
+    unfold step_x, next_x, accepted.
+    destruct (changePos_x_spec c ti to l w) as [A B].
+    destruct (upd_x_spec s00 ti to l (a_r a) (a_sm a) w) as [A' B'].
+    rewrite Er, Es in A, B.
+    destruct (Classical_Prop.classic (pre ti to l (a_r a) (a_sm a) w)) as [Hp | Hn].
+    + rewrite (A Hp), (A' Hp). cbn [fst snd]. apply (step_inv e c a (ChangePos ti to l w) H).
+    + rewrite (B Hn), (B' Hn). cbn [fst snd]. exact H.
+  - unfold step_x, next_x, accepted. apply (step_inv e c a (ChangeMom x) H).
+Qed.
+
+Lemma step_x_compact c o : same_compact (step_x c o) c.
+Proof.
+  destruct o as [ti to l w | x].
+  - unfold step_x. destruct (changePos_x_spec c ti to l w) as [A B].
+    destruct (Classical_Prop.classic (pre ti to l (g3_ratioPointsWall (params c))
+                                          (g3_smoothing (params c)) w)) as [Hp | Hn].
+    + rewrite (A Hp). cbn [fst]. apply (step_compact e c (ChangePos ti to l w)).
+    + rewrite (B Hn). cbn [fst]. repeat split.
+  - apply (step_compact e c (ChangeMom x)).
+Qed.
+
+Lemma run_x_inv ops : forall c a, inv e c a ->
+  inv e (run_x c ops) (fold_left next_x ops a) /\ same_compact (run_x c ops) c.
+Proof.
+  induction ops as [|o ops IH]; intros c a H; cbn [run_x fold_left].
+  - split; [assumption | repeat split].
+  - destruct (IH (step_x c o) (next_x a o) (step_x_inv c a o H)) as [H1 (S1 & S2 & S3)].
+    split; [exact H1|]. destruct (step_x_compact c o) as (T1 & T2 & T3).
+    unfold run_x in *. repeat split; congruence.
+Qed.
+
+Lemma rescale_with_rejections_lemma c0 c0' a ops : same_compact c0 c0' ->
+  let c1 := run_x (new e c0 a) ops in
+  let c2 := new e c0' (fold_left next_x ops a) in
+  same_compact c1 c2 /\ same_arrays c1 c2 /\ core (params c1) = core (params c2) /\
+  coherent (g3_decompactify e) (g3_compactificationDerivatives e) c1.
+Proof.
+  intros (E1 & E2 & E3) c1 c2.
+  destruct (run_x_inv ops (new e c0 a) a (new_inv e c0 a)) as [[Hc Hp] (S1 & S2 & S3)].
+  destruct (new_compact e c0 a) as (N1 & N2 & N3).
+  destruct (new_compact e c0' (fold_left next_x ops a)) as (M1 & M2 & M3).
+  destruct (new_inv e c0' (fold_left next_x ops a)) as [Hc2 _].
+  assert (SC : same_compact c1 c2) by (unfold c1, c2; repeat split; congruence).
+  assert (CO : core (params c1) = core (params c2)) by apply Hp.
+  split; [exact SC|]. split; [|split; [exact CO | exact Hc]].
+  apply (coherent_same_arrays (g3_decompactify e) (g3_compactificationDerivatives e));
+    try assumption.
+  - intros; apply dec_core; exact CO.
+  - intros; apply jac_core; exact CO.
+Qed.
+
+(** the constructor's parameters ARE those _updateParameters produces (plus T) *)
+Lemma new_params_lemma c0 a :
+  core (params (new e c0 a)) =
+  core (set_g3_momentumFalloffT (a_T a)
+          (g3__updateParameters e (params c0) (a_tIn a) (a_tOut a) (a_L a) (a_r a) (a_sm a) (a_c a))).
+Proof. destruct c0 as [p ? ? ? ? ? ? ? ? ?], p, a. reflexivity. Qed.
+End ErrorExits.
+
+(* ------------------------------------------------------------------------------------- *)
+(** * The getters (the only interface BoltzmannSolver / EOM / Polynomial use) *)
+Definition fin3 (t : list R * list R * list R) : list ext * list ext * list ext :=
+  let '(a, b, c) := t in (map Fin a, map Fin b, map Fin c).
+(** [lo :: l ++ [hi]] for the first two directions, [l ++ [hi]] for the third (rho_par = -1 is
+    a node) *)
+Definition ends3 (lo hi : ext) (t : list R * list R * list R) :=
+  let '(a, b, c) := t in
+  (lo :: map Fin a ++ [hi], lo :: map Fin b ++ [hi], map Fin c ++ [hi]).
+
+Lemma g_getters_lemma (e : g_env) (c : cache g_st) :
+  g_getCompactCoordinates e c false = fin3 (chiValues c, rzValues c, rpValues c) /\
+  g_getCoordinates e c false = fin3 (xiValues c, pzValues c, ppValues c) /\
+  g_getCompactificationDerivatives e c false = fin3 (dxidchi c, dpzdrz c, dppdrp c) /\
+  g_getCompactCoordinates e c true = ends3 (Fin (-1)) (Fin 1) (chiValues c, rzValues c, rpValues c) /\
+  g_getCoordinates e c true = ends3 NegInf PosInf (xiValues c, pzValues c, ppValues c) /\
+  g_getCompactificationDerivatives e c true = ends3 PosInf PosInf (dxidchi c, dpzdrz c, dppdrp c) /\
+  (forall b, g_getCompactCoordinates_z e c b = fst (fst (g_getCompactCoordinates e c b)) /\
+             g_getCompactCoordinates_pz e c b = snd (fst (g_getCompactCoordinates e c b)) /\
+             g_getCompactCoordinates_pp e c b = snd (g_getCompactCoordinates e c b)).
+Proof. repeat split; try reflexivity; destruct b; reflexivity. Qed.
+
+Lemma g3_getters_lemma (e : g3_env) (c : cache g3_st) :
+  g3_getCompactCoordinates e c false = fin3 (chiValues c, rzValues c, rpValues c) /\
+  g3_getCoordinates e c false = fin3 (xiValues c, pzValues c, ppValues c) /\
+  g3_getCompactificationDerivatives e c false = fin3 (dxidchi c, dpzdrz c, dppdrp c) /\
+  g3_getCompactCoordinates e c true = ends3 (Fin (-1)) (Fin 1) (chiValues c, rzValues c, rpValues c) /\
+  g3_getCoordinates e c true = ends3 NegInf PosInf (xiValues c, pzValues c, ppValues c) /\
+  g3_getCompactificationDerivatives e c true = ends3 PosInf PosInf (dxidchi c, dpzdrz c, dppdrp c) /\
+  (forall b, g3_getCompactCoordinates_z e c b = fst (fst (g3_getCompactCoordinates e c b)) /\
+             g3_getCompactCoordinates_pz e c b = snd (fst (g3_getCompactCoordinates e c b)) /\
+             g3_getCompactCoordinates_pp e c b = snd (g3_getCompactCoordinates e c b)).
+Proof. repeat split; try reflexivity; destruct b; reflexivity. Qed.
+
+(** on a coherent object the coordinate / Jacobian getters are the maps of the node getter *)
+Definition maps3 (f : R -> R -> R -> R * R * R) (t : list R * list R * list R) :=
+  let '(a, b, c) := t in (map (comp1 f) a, map (comp2 f) b, map (comp3 f) c).
+
+Lemma coherent_getters {P : Type} (dec jac : P -> R -> R -> R -> R * R * R) (c : cache P) :
+  coherent dec jac c ->
+  (xiValues c, pzValues c, ppValues c) = maps3 (dec (params c)) (chiValues c, rzValues c, rpValues c) /\
+  (dxidchi c, dpzdrz c, dppdrp c) = maps3 (jac (params c)) (chiValues c, rzValues c, rpValues c).
+Proof. intros (A1 & A2 & A3 & A4 & A5 & A6). unfold maps3. rewrite <- A1, <- A2, <- A3, <- A4, <- A5, <- A6. split; reflexivity. Qed.
+
+(* ------------------------------------------------------------------------------------- *)
 (** * Obligations *)
 Theorem simple_inverse : forall e s, 0 < g_positionFalloff s -> g_momentumFalloffT s <> 0 ->
   (forall z pz pp, let '(a, b, c) := g_compactify e s z pz pp in g_decompactify e s a b c = (z, pz, pp)) /\
@@ -710,3 +888,183 @@ Proof.
   exists s0, tIn, tOut, L, r, sm, c, chi. split; [apply pre_admissible; exact H1 | exact H2].
 Qed.
 Print Assumptions g3_monotone_large_smoothing_refuted.
+
+(* ---- added after the white-box audit ---------------------------------------------------- *)
+
+(** the getters return the stored arrays (with -1/1 resp. -inf/+inf at the ends when
+    endpoints=True; a `direction` selects a component) -- both classes, every object state *)
+Theorem getters_return_the_cache : forall e c e3 c3,
+  (g_getCompactCoordinates e c false = fin3 (chiValues c, rzValues c, rpValues c) /\
+   g_getCoordinates e c false = fin3 (xiValues c, pzValues c, ppValues c) /\
+   g_getCompactificationDerivatives e c false = fin3 (dxidchi c, dpzdrz c, dppdrp c) /\
+   g_getCompactCoordinates e c true = ends3 (Fin (-1)) (Fin 1) (chiValues c, rzValues c, rpValues c) /\
+   g_getCoordinates e c true = ends3 NegInf PosInf (xiValues c, pzValues c, ppValues c) /\
+   g_getCompactificationDerivatives e c true = ends3 PosInf PosInf (dxidchi c, dpzdrz c, dppdrp c) /\
+   (forall b, g_getCompactCoordinates_z e c b = fst (fst (g_getCompactCoordinates e c b)) /\
+              g_getCompactCoordinates_pz e c b = snd (fst (g_getCompactCoordinates e c b)) /\
+              g_getCompactCoordinates_pp e c b = snd (g_getCompactCoordinates e c b))) /\
+  (g3_getCompactCoordinates e3 c3 false = fin3 (chiValues c3, rzValues c3, rpValues c3) /\
+   g3_getCoordinates e3 c3 false = fin3 (xiValues c3, pzValues c3, ppValues c3) /\
+   g3_getCompactificationDerivatives e3 c3 false = fin3 (dxidchi c3, dpzdrz c3, dppdrp c3) /\
+   g3_getCompactCoordinates e3 c3 true = ends3 (Fin (-1)) (Fin 1) (chiValues c3, rzValues c3, rpValues c3) /\
+   g3_getCoordinates e3 c3 true = ends3 NegInf PosInf (xiValues c3, pzValues c3, ppValues c3) /\
+   g3_getCompactificationDerivatives e3 c3 true = ends3 PosInf PosInf (dxidchi c3, dpzdrz c3, dppdrp c3) /\
+   (forall b, g3_getCompactCoordinates_z e3 c3 b = fst (fst (g3_getCompactCoordinates e3 c3 b)) /\
+              g3_getCompactCoordinates_pz e3 c3 b = snd (fst (g3_getCompactCoordinates e3 c3 b)) /\
+              g3_getCompactCoordinates_pp e3 c3 b = snd (g3_getCompactCoordinates e3 c3 b))).
+Proof. intros. split; [apply g_getters_lemma | apply g3_getters_lemma]. Qed.
+Print Assumptions getters_return_the_cache.
+
+(** _updateParameters with its assertions in program order: it completes exactly under its
+    precondition, and a rejected call leaves the state it was given (no store precedes a
+    failing assertion) *)
+Theorem updateParameters_exits : forall e s tIn tOut L r sm c,
+  (g3__updateParameters_pre tIn tOut L r sm c ->
+     g3__updateParameters_x e s tIn tOut L r sm c =
+     (g3__updateParameters e s tIn tOut L r sm c, true)) /\
+  (~ g3__updateParameters_pre tIn tOut L r sm c ->
+     g3__updateParameters_x e s tIn tOut L r sm c = (s, false)).
+Proof. exact upd_x_spec. Qed.
+Print Assumptions updateParameters_exits.
+
+(** a rejected changePositionFalloffScale (the caller catches the error) leaves the whole object
+    unchanged; an admissible one is the modelled call; same for the constructor *)
+Theorem rejected_call_leaves_object_unchanged : forall e c tIn tOut L w,
+  let pre := g3__updateParameters_pre tIn tOut L (g3_ratioPointsWall (params c))
+                                      (g3_smoothing (params c)) w in
+  (pre -> g3_changePositionFalloffScale_x e c tIn tOut L w =
+          (g3_changePositionFalloffScale e c tIn tOut L w, true)) /\
+  (~ pre -> g3_changePositionFalloffScale_x e c tIn tOut L w = (c, false)).
+Proof. intros. apply changePos_x_spec. Qed.
+Print Assumptions rejected_call_leaves_object_unchanged.
+
+Theorem constructor_exits : forall e c0 tIn tOut L T r sm w,
+  (g3__updateParameters_pre tIn tOut L r sm w ->
+     g3_init_x e c0 tIn tOut L T r sm w = (g3_init e c0 tIn tOut L T r sm w, true)) /\
+  (~ g3__updateParameters_pre tIn tOut L r sm w ->
+     g3_init_x e c0 tIn tOut L T r sm w = (c0, false)).
+Proof. exact init_x_spec. Qed.
+Print Assumptions constructor_exits.
+
+(** histories in which ANY of the calls may be rejected: the object equals a new grid built
+    with the scales of the accepted calls, its cache is coherent, and (hence) its getters are
+    the maps of its node getter with its current parameters and agree with the new grid's *)
+Theorem rescale_equals_new_with_rejections : forall e c0 c0' a ops, same_compact c0 c0' ->
+  let c1 := run_x e (new e c0 a) ops in
+  let c2 := new e c0' (fold_left (next_x e) ops a) in
+  let nodes := (chiValues c1, rzValues c1, rpValues c1) in
+  (same_compact c1 c2 /\ same_arrays c1 c2 /\ core (params c1) = core (params c2)) /\
+  (g3_getCompactCoordinates e c1 false = fin3 nodes /\
+   g3_getCoordinates e c1 false = fin3 (maps3 (g3_decompactify e (params c1)) nodes) /\
+   g3_getCompactificationDerivatives e c1 false =
+     fin3 (maps3 (g3_compactificationDerivatives e (params c1)) nodes) /\
+   g3_getCoordinates e c1 true = ends3 NegInf PosInf (maps3 (g3_decompactify e (params c1)) nodes) /\
+   g3_getCompactificationDerivatives e c1 true =
+     ends3 PosInf PosInf (maps3 (g3_compactificationDerivatives e (params c1)) nodes)) /\
+  (forall b, g3_getCoordinates e c1 b = g3_getCoordinates e c2 b /\
+             g3_getCompactificationDerivatives e c1 b = g3_getCompactificationDerivatives e c2 b /\
+             g3_getCompactCoordinates e c1 b = g3_getCompactCoordinates e c2 b).
+Proof.
+  intros e c0 c0' a ops H c1 c2 nodes.
+  destruct (rescale_with_rejections_lemma e c0 c0' a ops H) as (SC & SA & CO & Hc).
+  fold c1 in SC, SA, CO, Hc. fold c2 in SC, SA, CO.
+  destruct (g3_getters_lemma e c1) as (G1 & G2 & G3 & G4 & G5 & G6 & _).
+  destruct (g3_getters_lemma e c2) as (K1 & K2 & K3 & K4 & K5 & K6 & _).
+  destruct (coherent_getters _ _ c1 Hc) as (M1 & M2).
+  split; [exact (conj SC (conj SA CO))|]. split.
+  - unfold nodes. rewrite <- M1, <- M2. repeat split; assumption.
+  - destruct SC as (S1 & S2 & S3). destruct SA as (A1 & A2 & A3 & A4 & A5 & A6).
+    intros [|]; rewrite ?G1, ?G2, ?G3, ?G4, ?G5, ?G6, ?K1, ?K2, ?K3, ?K4, ?K5, ?K6,
+      ?S1, ?S2, ?S3, ?A1, ?A2, ?A3, ?A4, ?A5, ?A6; repeat split.
+Qed.
+Print Assumptions rescale_equals_new_with_rejections.
+
+(** simple grid: after any history the getters are the maps of the nodes *)
+Theorem simple_getters_after_history : forall e c0 a ops,
+  let c1 := fold_left (gstep e) ops (gnew e c0 a) in
+  let nodes := (chiValues c1, rzValues c1, rpValues c1) in
+  g_getCompactCoordinates e c1 false = fin3 nodes /\
+  g_getCoordinates e c1 false = fin3 (maps3 (g_decompactify e (params c1)) nodes) /\
+  g_getCompactificationDerivatives e c1 false =
+    fin3 (maps3 (g_compactificationDerivatives e (params c1)) nodes).
+Proof.
+  intros e c0 a ops c1 nodes.
+  assert (Hc : coherent (g_decompactify e) (g_compactificationDerivatives e) c1).
+  { unfold c1. rewrite (simple_rescale_equals_new_lemma e c0 c0 a ops eq_refl eq_refl eq_refl).
+    unfold gnew, g_init. rewrite g_cache_is_recache. apply recache_coherent. }
+  destruct (g_getters_lemma e c1) as (G1 & G2 & G3 & _).
+  destruct (coherent_getters _ _ c1 Hc) as (M1 & M2).
+  unfold nodes. rewrite <- M1, <- M2. repeat split; assumption.
+Qed.
+Print Assumptions simple_getters_after_history.
+
+(** the parameters of a constructed object are those _updateParameters produces *)
+Theorem new_params_link : forall e c0 a,
+  core (params (new e c0 a)) =
+  core (set_g3_momentumFalloffT (a_T a)
+          (g3__updateParameters e (params c0) (a_tIn a) (a_tOut a) (a_L a) (a_r a) (a_sm a) (a_c a))).
+Proof. exact new_params_lemma. Qed.
+Print Assumptions new_params_link.
+
+(** the three-scale position map is unbounded towards both ends (with monotonicity and
+    continuity: a bijection of (-1,1) onto the real line), for smoothing < 1 *)
+Theorem g3_ends : forall e s0 tIn tOut L r sm c B,
+  g3__updateParameters_pre tIn tOut L r sm c -> sm < 1 ->
+  let s := g3__updateParameters e s0 tIn tOut L r sm c in
+  (exists d, 0 < d /\ forall x, 1 - d < x < 1 -> B < comp1 (g3_decompactify e s) x) /\
+  (exists d, 0 < d /\ forall x, -1 < x < -1 + d -> comp1 (g3_decompactify e s) x < B).
+Proof.
+  intros e s0 tIn tOut L r sm c B Hpre Hsm s.
+  assert (Ha : admissible tIn tOut L r sm) by (apply (proj1 (pre_admissible tIn tOut L r sm c)); assumption).
+  assert (E : forall x, comp1 (g3_decompactify e s) x =
+                        map3 tIn tOut L r sm (a_of L r sm tIn) (a_of L r sm tOut) x
+                        - map3 tIn tOut L r sm (a_of L r sm tIn) (a_of L r sm tOut) 0 + c).
+  { intro x. unfold comp1. rewrite g3_dec_shape. cbn [fst snd]. rewrite !g3_total_shape.
+    unfold s. fold (upd e s0 tIn tOut L r sm c).
+    destruct (upd_fields e s0 tIn tOut L r sm c) as (-> & -> & -> & -> & -> & -> & -> & -> & _).
+    reflexivity. }
+  destruct (map3_ends tIn tOut L r sm Ha Hsm c B) as [(d1 & Hd1 & H1) (d2 & Hd2 & H2)].
+  split; [exists d1 | exists d2]; (split; [assumption|]); intros x Hx; rewrite E; auto.
+Qed.
+Print Assumptions g3_ends.
+
+(** facts about the rest of the package, extracted on this run *)
+Theorem grid_written_only_by_its_methods : foreign_grid_writes = 0%nat.
+Proof. reflexivity. Qed.
+Print Assumptions grid_written_only_by_its_methods.
+
+(** EOM._updateGrid calls changePositionFalloffScale with admissible arguments whenever the
+    thickness it computed is positive (its tails are max(.., L (1/2 + k sm)/r) with k > 1) *)
+Theorem eom_updateGrid_admissible : forall e v L w,
+  0 < L -> 0 < eom_smoothing e -> 0 < eom_ratioPointsWall e < 1 ->
+  let '(ti, to, l, c) := eom_args e v L w in
+  g3__updateParameters_pre ti to l (eom_ratioPointsWall e) (eom_smoothing e) c /\ l = L /\ c = w.
+Proof.
+  intros e v L w HL Hs Hr. unfold eom_args. cbv zeta.
+  unfold g3__updateParameters_pre.
+  assert (Hb : L * (1 / 2 + eom_smoothing e) / eom_ratioPointsWall e <
+               L * (1 / 2 + 21 / 20 * eom_smoothing e) / eom_ratioPointsWall e).
+  { unfold Rdiv. apply Rmult_lt_compat_r; [apply Rinv_0_lt_compat; lra | nra]. }
+  repeat split; try lra;
+  (eapply Rlt_le_trans; [exact Hb | apply Rmax_r]).
+Qed.
+Print Assumptions eom_updateGrid_admissible.
+
+(** WallGoManager.buildGrid constructs the grid with admissible arguments *)
+Theorem mgr_buildGrid_admissible : forall e L mfp T N M r sm Tn,
+  0 < L -> 0 < Tn -> 0 < sm -> 0 < r < 1 ->
+  let '(_, _, ti, to, l, _, r', sm') := mgr_args e L mfp T N M r sm Tn in
+  g3__updateParameters_pre ti to l r' sm' 0.
+Proof.
+  intros e L mfp T N M r sm Tn HL HT Hs Hr. unfold mgr_args. cbv zeta.
+  unfold g3__updateParameters_pre.
+  assert (HLT : 0 < L / Tn) by (apply Rdiv_lt_0_compat; lra).
+  assert (Hb : L / Tn * (1 / 2 + sm) / r < Rmax mfp (1 / 2 * L * (1 + 3 * sm) / r) / Tn).
+  { apply Rlt_le_trans with (1 / 2 * L * (1 + 3 * sm) / r / Tn).
+    - assert (E : 1 / 2 * L * (1 + 3 * sm) / r / Tn - L / Tn * (1 / 2 + sm) / r =
+                  L * sm / (2 * r * Tn)) by (field; lra).
+      assert (0 < L * sm / (2 * r * Tn)) by (apply Rdiv_lt_0_compat; nra). lra.
+    - unfold Rdiv. apply Rmult_le_compat_r; [apply Rlt_le, Rinv_0_lt_compat; lra | apply Rmax_r]. }
+  repeat split; try lra.
+Qed.
+Print Assumptions mgr_buildGrid_admissible.
